@@ -135,7 +135,7 @@ Proof. vm_compute. repeat split; reflexivity. Qed.
    batch of fs_pend whose bytes are completely on the disk: nothing of a batch that
    failed before the last successful fsync, no part of a batch, no mix of two.  (The
    batch need not be the LAST failed write: a power loss can keep an earlier unsynced
-   write whole and lose a later one, fx_T_a below.)  Hypothesis no_stale_commit: no
+   write whole and lose a later one, fx_T_a below.)  Assumed: no_stale_commit, i.e. no
    commit frame the scan meets at or behind the recovered end stores the CRC of its
    apparent range (decidable: no_stale_commitb; C10_byte_no_stale_commit_decidable). *)
 From RW Require Import Seg.RecoverOld Seg.FailFacts.
